@@ -284,6 +284,76 @@ theorem lossyDoc_docG (D : Doc) : lossyDoc (docG D) = D.filter (fun p => !p.isEm
       have := lossy_parasOf ((f :: fs) :: ps)
       simpa [docG, lossyDoc, parasOf] using this
 
+/-! ### what the lossless reader shows of the grammar document -/
+
+/-- the lossless view of a canonical value: an empty first line is not shown -/
+def dropLead (v : Str) : Str :=
+  match v with
+  | [] => []
+  | c :: r => if c = '\n' then r else c :: r
+
+/-- a field as the lossless reader shows it -/
+def viewF (f : Field) : Field := (f.1, dropLead f.2)
+
+theorem entryOf_valueLines (k : Str) (ls : List Str) :
+    (entryOf k ls).valueLines = (if ls.headD [] = [] then [] else [ls.headD []]) ++ ls.tail := by
+  simp [EntryS.valueLines, entryOf, List.map_map, Function.comp_def]
+
+theorem entryOf_content_str (k v : Str) :
+    (entryOf k (Text.splitOn '\n' v)).content = (k, dropLead v) := by
+  simp only [EntryS.content, entryOf_valueLines]
+  have hk : (entryOf k (Text.splitOn '\n' v)).key = k := rfl
+  rw [hk]
+  congr 1
+  cases v with
+  | nil => simp [Text.splitOn, Text.join, dropLead]
+  | cons c r =>
+    by_cases hc : c = '\n'
+    · subst hc
+      simp only [Text.splitOn, ↓reduceIte, List.headD_cons, List.tail_cons, List.nil_append, dropLead]
+      exact join_splitOn r
+    · have hj := join_splitOn (c :: r)
+      simp only [dropLead, hc, ↓reduceIte]
+      cases hs : Text.splitOn '\n' r with
+      | nil => exact absurd hs (splitOn_ne_nil _ _)
+      | cons l ls =>
+        simp only [Text.splitOn, hc, ↓reduceIte, hs] at hj ⊢
+        simpa using hj
+
+theorem items_content (fs : List Field) :
+    (((fs.map fieldL).map fun g => PItem.entry (entryOf g.1 g.2)).map PItem.content).flatten
+      = fs.map viewF := by
+  induction fs with
+  | nil => rfl
+  | cons g gs ih =>
+    simp only [List.map_cons, List.flatten_cons, PItem.content, ih]
+    have : (entryOf (fieldL g).1 (fieldL g).2).content = viewF g := entryOf_content_str g.1 g.2
+    rw [this]; rfl
+
+theorem paraG_content (f : Field) (fs : List Field) : (paraG f fs).content = (f :: fs).map viewF := by
+  have h1 : (entryOf (fieldL f).1 (fieldL f).2).content = viewF f := entryOf_content_str f.1 f.2
+  simp only [ParaS.content, paraG, paraOf, h1, items_content, List.map_cons]
+
+theorem content_parasOf (ps : Doc) :
+    (parasOf ps).map (fun pg => pg.1.content) = (ps.filter (fun p => !p.isEmpty)).map (·.map viewF) := by
+  induction ps with
+  | nil => rfl
+  | cons p ps ih =>
+    cases p with
+    | nil => simpa [parasOf] using ih
+    | cons f fs => simp [parasOf, paraG_content, ih]
+
+theorem content_docG (D : Doc) :
+    (docG D).content = (D.filter (fun p => !p.isEmpty)).map (·.map viewF) := by
+  cases D with
+  | nil => rfl
+  | cons p ps =>
+    cases p with
+    | nil => simpa [docG, DocS.content] using content_parasOf ps
+    | cons f fs =>
+      have := content_parasOf ((f :: fs) :: ps)
+      simpa [docG, DocS.content, parasOf] using this
+
 /-! ### closure of the canonical paragraphs under the edits -/
 
 theorem canonP_pinsert (p : Para) (k v : Str) (hp : CanonP p) (hk : ValidKey k) (hv : CanonV v) :
